@@ -1,0 +1,53 @@
+//go:build verif
+
+package json
+
+// Verification hooks (build tag "verif").
+
+// VerifQuery mirrors the unexported query type.
+type VerifQuery struct {
+	SearchPath [][]byte
+	SearchVals [][]byte
+}
+
+// VerifQueries returns the registered queries by name.
+func VerifQueries() map[string][]VerifQuery {
+	out := map[string][]VerifQuery{}
+	for k, qs := range queries {
+		var l []VerifQuery
+		for _, q := range qs {
+			l = append(l, VerifQuery{q.SearchPath, q.SearchVals})
+		}
+		out[k] = l
+	}
+	return out
+}
+
+// VerifMaxRecursion returns the recursion cap constant.
+func VerifMaxRecursion() int { return maxRecursion }
+
+// VerifPoolMaxRecursion takes a state out of the pool, reads its cap and puts it back.
+func VerifPoolMaxRecursion() int {
+	p := parserPool.Get().(*parserState)
+	defer parserPool.Put(p)
+	return p.maxRecursion
+}
+
+// VerifPutDirty puts a recycled-looking state with the given contents into the pool,
+// as an earlier (possibly aborted) Parse could have left it.
+func VerifPutDirty(ib int, path [][]byte, firstToken int, querySatisfied bool) {
+	p := parserPool.Get().(*parserState)
+	p.ib = ib
+	p.currPath = append(p.currPath[0:0], path...)
+	p.firstToken = firstToken
+	p.querySatisfied = querySatisfied
+	parserPool.Put(p)
+}
+
+// VerifParseFresh parses with a private, freshly constructed state (no pool).
+func VerifParseFresh(queryType string, raw []byte) (parsed, inspected, firstToken int, querySatisfied bool) {
+	p := &parserState{maxRecursion: maxRecursion}
+	p.reset()
+	got := p.consumeAny(raw, queries[queryType], 0)
+	return got, p.ib, p.firstToken, p.querySatisfied
+}
